@@ -23,14 +23,42 @@ ASSUMPTIONS = ["reference rule: an object takes part iff it is the call's top ob
                "reference semantics ref.py for the 'solver saw the pre_randomize value' part"]
 CASE_TIMEOUT = 120
 DECIDE = {"callback-count", "callback-on-nonrandom-object", "callback-order", "post-sees-stale-values",
-          "value-violates-constraint", "formula-mismatch"}
+          "value-violates-constraint", "formula-mismatch", "list-views-disagree", "other-exception"}
 
 
 def plan(tier):
     return {"ncases": 480, "budget_s": 80} if tier == "quick" else {"ncases": 6000, "budget_s": 900}
 
 
+def gen_list_case(rng):
+    """pre_randomize writes the non-random field that bounds the size of a random-size list through an expression:
+    the list must be sized for the value the callback wrote (the size, len(), indexing and iteration agree, the
+    foreach holds on every exposed element)"""
+    w = rng.choice([2, 3])
+    fields = [{"n": "k", "k": "int", "w": 3, "s": False, "r": False, "i": rng.randint(1, 2)},
+              {"n": "a", "k": "int", "w": 2, "s": False, "r": True},
+              {"n": "l", "k": "list", "ek": "int", "w": w, "s": False, "r": True, "rsz": True, "sz": 0, "szmax": 3}]
+    rng.shuffle(fields)
+    st = [["e", ["b", "<=", ["sz", ["l"]], ["b", "-", ["f", ["k"]], ["c", 1]]]],
+          ["e", ["b", "<=", ["sz", ["l"]], ["c", 3]]]]
+    if rng.random() < 0.6:
+        st.append(["e", ["b", ">=", ["sz", ["l"]], ["b", "-", ["f", ["k"]], ["c", rng.choice([1, 2])]]]])
+    prog = {"enums": {}, "classes": {"Top": {"base": None, "fields": fields, "blocks": [{"n": "c0", "st": st}]}}, "top": "Top"}
+    hist = []
+    for _ in range(rng.randint(3, 6)):
+        op = {"op": "randomize", "o": "o0"} if rng.random() < 0.7 else {
+            "op": "with", "o": "o0", "inline": [["e", ["b", rng.choice(["<", ">", "!="]), ["f", ["a"]], ["c", rng.randint(0, 3)]]]]}
+        if rng.random() < 0.8:
+            op["pre_writes"] = [[[], "k", rng.randint(1, 4)]]
+        hist.append(op)
+    return {"prog": prog, "hist": hist, "seed": rng.randint(1, 1 << 30), "max_points": 1 << 11}
+
+
 def gen_case(rng, tier, idx):
+    if idx % 8 == 7:
+        return gen_list_case(rng)
+    if idx % 8 == 3:
+        return gen_nested_case(rng)
     for _ in range(20):
         prog, g = gen.tree_program(rng, max_bits=10, with_collections=False, deep=rng.random() < 0.5)
         hist = gen.tree_history(g, prog, nops=rng.randint(5, 12), toggles=False, collections=False)
@@ -112,7 +140,84 @@ def per_call(sess, ev, add, cnt):
                 add("post-sees-stale-values", "%s: post_randomize of %s saw %s=%r but the call left %r" % (head, name, fname, v, final))
 
 
+def gen_nested_case(rng):
+    prog, g = gen.tree_program(rng, max_bits=10, with_collections=False, deep=rng.random() < 0.5)
+    prog = {k: v for k, v in prog.items() if not k.startswith("_")}
+    return {"prog": prog, "nested": True, "seed": rng.randint(1, 1 << 30), "ncalls": rng.randint(2, 4), "pick": rng.random()}
+
+
+def exec_nested(spec):
+    """A post_randomize callback calls randomize() on a random sub-object of its own object (segmented randomization).
+    The nested call is a call of its own (one pre, one post on the sub-object and what is below it); the enclosing
+    call must still run every callback of its own exactly once: the sub-object sees 2 + 2, every other object 1 + 1."""
+    from ..session import Session
+    from ..libstate import quiet, reset_lib_state
+    cnt = common.Counters()
+    viol = []
+    prog = spec["prog"]
+    sess = Session(prog, callbacks=True, seed=spec["seed"])
+    o = sess.new("o0")
+    st = R.new_state(prog, prog["top"])
+    objs, leaves = [], []
+    R.walk_leaves(prog, st, True, [], 0, leaves, objs)
+    used = [tuple(p) for p, s_, u in objs if u]
+    # holders: used objects with a random sub-object attribute (not a list element)
+    cands = []
+    for p in used:
+        cls = R.get_at(st, p)["cls"] if p else st["cls"]
+        for fd in R.all_fields(prog, cls):
+            if fd["k"] == "obj" and fd["r"] and tuple(p) + (fd["n"],) in used:
+                cands.append((p, fd["n"]))
+    if not cands:
+        reset_lib_state()
+        return {"status": common.NOOBS, "counters": dict(cnt), "nontrivial": False, "source": SC.source_of({"prog": prog, "hist": []})}
+    hp, sub = cands[int(spec["pick"] * len(cands)) % len(cands)]
+    holder = sess.live_at("o0", list(hp))
+    target = tuple(hp) + (sub,)
+    below = [p for p in used if p[:len(target)] == target]
+    sess.bt.post_nested = {id(holder): [sub]}
+    ids = {id(sess.live_at("o0", list(p))): p for p in used}
+    src = SC.source_of({"prog": prog, "hist": []}) + "\n# post_randomize of %s calls self.%s.randomize()" % (".".join(map(str, hp)) or "<root>", sub)
+    try:
+        for k in range(spec["ncalls"]):
+            del sess.bt.log[:]
+            try:
+                with quiet():
+                    o.randomize()
+            except Exception as e:
+                if type(e).__name__ == "CaseTimeout":
+                    raise
+                cnt.inc("calls_raised")
+                reset_lib_state()
+                continue
+            cnt.inc("calls_judged")
+            cnt.inc("nested_calls_judged")
+            cnt.inc("callback_records", len(sess.bt.log))
+            per = {}
+            for seq, oid, cname, phase, vals in sess.bt.log:
+                per.setdefault(oid, []).append(phase)
+            for oid, p in ids.items():
+                exp = 2 if p in below else 1
+                n_pre, n_post = per.get(oid, []).count("pre"), per.get(oid, []).count("post")
+                cnt.inc("objects_checked")
+                if n_pre != exp or n_post != exp:
+                    viol.append(("callback-count", "call %d: object %s saw %d pre_randomize and %d post_randomize (expected %d and %d: the "
+                                 "post_randomize of %s randomizes self.%s again)\n%s" % (
+                                     k, ".".join(map(str, p)) or "<root>", n_pre, n_post, exp, exp, ".".join(map(str, hp)) or "<root>", sub, src), None))
+    finally:
+        sess.bt.post_nested = {}
+        reset_lib_state()
+    res = {"counters": dict(cnt), "nontrivial": cnt.get("calls_judged", 0) > 0, "source": src}
+    if viol:
+        res.update(status=common.VIOL, kind=viol[0][0], msg=" || ".join(v[1] for v in viol[:2]), finding=None)
+    else:
+        res["status"] = common.HELD if cnt.get("calls_judged") else common.NOOBS
+    return res
+
+
 def exec_case(spec):
+    if spec.get("nested"):
+        return exec_nested(spec)
     res = J.judge(spec, DECIDE, callbacks=True, per_call=per_call)
     if res.get("status") == common.INCONC:
         return res
